@@ -77,21 +77,30 @@ type ModelField struct {
 	Name, Type string
 }
 
+// RegexSpec: `regexp Name == "pattern" {P1,P2}`: the package-level variable Name is compiled from a regular expression
+// that accepts exactly the language of the pattern written in the contract (taken from the property statement)
+type RegexSpec struct {
+	Name, Pattern string
+	Props         []string
+	Line          int
+}
+
 type ContractFile struct {
-	Pkg    string
-	Funcs  map[string]*FuncContract
-	Preds  map[string]*PredDef
-	Ghosts map[string]*GhostFunc
-	Axioms []Clause
-	Models map[string][]ModelField // type name -> ghost fields
-	Lemmas []Clause
-	Groups []*FuncContract // `funcs` blocks
+	Regexes []RegexSpec
+	Pkg     string
+	Funcs   map[string]*FuncContract
+	Preds   map[string]*PredDef
+	Ghosts  map[string]*GhostFunc
+	Axioms  []Clause
+	Models  map[string][]ModelField // type name -> ghost fields
+	Lemmas  []Clause
+	Groups  []*FuncContract // `funcs` blocks
 }
 
 var reLabel = regexp.MustCompile(`^\[([A-Za-z0-9_.\-]+)\](\{[A-Z0-9, ]+\})?\s*`)
 
 var clauseKW = map[string]bool{"func": true, "funcs": true, "iface": true, "callback": true, "pred": true, "ghost": true, "axiom": true, "lemma": true, "model": true,
-	"props": true, "requires": true, "ensures": true, "maintains": true, "fspath": true, "forbid": true, "loop": true, "assert": true, "assume": true, "modifies": true, "trusted": true, "nilrecv": true, "pure": true, "package": true}
+	"props": true, "requires": true, "ensures": true, "maintains": true, "fspath": true, "forbid": true, "loop": true, "assert": true, "assume": true, "modifies": true, "trusted": true, "nilrecv": true, "pure": true, "package": true, "regexp": true}
 
 func parseContractFile(path, pkg string) (*ContractFile, error) {
 	b, err := os.ReadFile(path)
@@ -369,6 +378,21 @@ func parseContractFile(path, pkg string) (*ContractFile, error) {
 				g.ParamTypes = append(g.ParamTypes, f[len(f)-1])
 			}
 			cf.Ghosts[g.Name] = g
+			cur = nil
+		case "regexp":
+			mm := regexp.MustCompile(`^(\w+)\s*==\s*"((?:[^"\\]|\\.)*)"\s*(\{[A-Z0-9, ]+\})?$`).FindStringSubmatch(rest)
+			if mm == nil {
+				return nil, fail(fmt.Errorf(`regexp clause must be: regexp Name == "pattern" {props}`))
+			}
+			pat, err := strconv.Unquote(`"` + mm[2] + `"`)
+			if err != nil {
+				return nil, fail(err)
+			}
+			rs := RegexSpec{Name: mm[1], Pattern: pat, Line: l.line}
+			if mm[3] != "" {
+				rs.Props = strings.Fields(strings.NewReplacer("{", "", "}", "", ",", " ").Replace(mm[3]))
+			}
+			cf.Regexes = append(cf.Regexes, rs)
 			cur = nil
 		case "axiom", "lemma":
 			name, body, ok := strings.Cut(rest, ":")
